@@ -23,7 +23,7 @@ the `<tbl>` argument: `in=out;in=out…`, hex, sent by the harness from x/text).
   `F<i>:<0|1>` a custom function (its verdict on this content type), `L<i>:<hexlist>`
   SetAutoDecodeContentType(list), `C<i>` Clone of member `i`.
 * `c15cfg <prog> <use> <grid>` — the selection alone, over a grid of responses: `grid` =
-  `,`-joined `<content-type hex>/<ae hex>/<mp>/<lk>` entries; in `prog` a custom function may also be named
+  `,`-joined `<content-type hex>/<ae hex>/<mp>/<lk>` entries (`lk` = a decoder id, or `W:<ok|nil|err>`: WHATWG table of the model, then what ianaindex says); in `prog` a custom function may also be named
   (`G<i>:<k>`, the harness' three fixed functions: suffix `+verif`, even length, contains `charset`).
   Answer: `,`-joined `raw|hdr|auto` (what `autoDecodeResponseBody` installs), one per grid entry.
 * `c15hdrs <mech> <fields> <disable> <filter> <cts> <tbl> <body> <full|wire>` — a response from its header FIELDS in
@@ -385,8 +385,17 @@ def laneCfg : List String → String
           let ct ← decodeHex ct
           let ae ← decodeHex ae
           let mp ← parseMp mp
-          let lk ← decOf [] lk
-          pure (showSel (select cfg ae ct mp fun _ => lk))
+          -- `W:<ok|nil|err>`: the model looks the charset up in ITS label table first; the suffix is what
+          -- ianaindex.MIME answers (implemented / registered without implementation / error)
+          let lookup : Option (Bytes → Option D) :=
+            if lk.startsWith "W:" then
+              let iana : Option (Iana Bytes) :=
+                if lk == "W:ok" then some (.ok (tableDecoder [])) else if lk == "W:nil" then some .unimplemented
+                else if lk == "W:err" then some .unknown else none
+              iana.map fun i => headerLookup realP.lookup (decOfName []) (fun _ => i)
+            else (decOf [] lk).map fun d => fun _ => d
+          let lookup ← lookup
+          pure (showSel (select cfg ae ct mp lookup))
         | _ => none
       pure (",".intercalate cells)
     r.getD "bad-op"
